@@ -274,15 +274,21 @@ class MovingWindow(BackgroundService):
                     f"Timestamp {key} is out of range [{self._buffer.oldest_timestamp}, "
                     f"{self._buffer.newest_timestamp}]"
                 )
-            return self._buffer[self._buffer.to_internal_index(key)]
-
-        if isinstance(key, int):
+            timestamp = key
+        elif isinstance(key, int):
             _logger.debug("Returning value at index %s ", key)
             timestamp = self._buffer.get_timestamp(key)
             assert timestamp is not None
-            return self._buffer[self._buffer.to_internal_index(timestamp)]
+            assert self._buffer.newest_timestamp is not None
+            if timestamp > self._buffer.newest_timestamp:
+                raise IndexError(f"Index {key} is out of range.")
+        else:
+            raise TypeError("Key has to be either a timestamp or an integer.")
 
-        raise TypeError("Key has to be either a timestamp or an integer.")
+        # A slot inside a gap holds no valid value, whatever is left in the buffer.
+        if self._buffer.is_missing(self._buffer.normalize_timestamp(timestamp)):
+            return float("nan")
+        return self._buffer[self._buffer.to_internal_index(timestamp)]
 
     def window(
         self,
